@@ -1088,7 +1088,12 @@ func genEquality(c *GenCtx) {
 	exprs := []string{"x == y", "x != y", "y == x", "x == x", "[x == y, y == z, x == z]", "contains([x, z], y)", "contains(`[]`, x)", "[!x, !!x]", "x && y", "x || y",
 		"[x, y, z][?@]", "[x, y, z][?@ == `null`]", "[x,y,z][?!@]", "(x == y) == !(x != y)", "x && y || z", "!x || y", "[x, y][?@ == $.z]", "type(x) == type(y)",
 		"[x][?@ == $.y]", "not_null(x, y, z)", "x == y && y == z", "[x == `0`, x == `false`, x == `\"\"`, x == `[]`, x == `{}`, x == `null`]", "y[?@ == $.x]",
-		"length([x, y, z][?@]) == length([x, y, z][?!(!@)])"}
+		"length([x, y, z][?@]) == length([x, y, z][?!(!@)])",
+		// truthiness applied to the result of every comparison (ordering comparisons of non-numbers are null, and !null is true)
+		"!(x < y)", "!(x <= y)", "!(x > y)", "!(x >= y)", "!(x == y)", "!(x != y)", "[!(x < y), x >= y]", "[!(x > y), x <= y]", "!(x < y) == (x >= y)",
+		"(x < y) || z", "(x > y) && z", "(x <= y) || (y <= x)", "[x, y, z][?!(@ < $.y)]", "[x, y, z][?!(@ >= $.x)]", "[x, y, z][?@ < $.y || @ >= $.y]",
+		"!(x < y) && !(x >= y)", "!!(x < y)", "!(!x)", "!(x && y)", "!(x || y)", "!(x == y) == (x != y)", "!(-x)", "!(x + y)", "[x, y, z][?!(@ == $.x)]",
+		"(x - x) || 'zero is true'", "(x - x) && 'zero is true'", "[x, y, z][?@ - @]", "!(x - x)", "!(x * `0`)", "(`1` - `1`) || 'z'", "[`0`, `1`, `-1`][?@ - `1`]"}
 	for k := 0; k < n; k++ {
 		x := c.eqValue(3)
 		y := c.eqValue(3)
@@ -1320,5 +1325,57 @@ func genCost(c *GenCtx) {
 	for k := 0; k < c.n(500, 5000); k++ {
 		e := strconv.Itoa(r.Intn(14000) - 7000)
 		c.add("cost-numtext", "[a + b, a * b, a / b, a == b, a < b, to_number('1e"+e+"'), abs(a), floor(a), to_string(a)]", `{"a":1.5e`+e+`,"b":7e`+strconv.Itoa(r.Intn(14000)-7000)+`}`)
+	}
+}
+
+// ---------------------------------------------------------------------------------------------
+// skeletons: every small expression shape — a unary form applied to a binary form of two atoms, a binary form of a
+// binary form and an atom, each as a filter predicate too — over one document that holds a value of every kind.
+// Pattern lists miss interactions nobody thought of (`!` applied to an ordering comparison of non-numbers); this family
+// is exhaustive over its small alphabet. `sample` > 1 keeps one shape in `sample`.
+
+func genSkeleton(c *GenCtx, sample int) {
+	r := c.Rng
+	doc := `{"n":3,"m":-2,"q":2.50,"zero":0,"s":"abc","u":"","z":null,"t":true,"f":false,"a":[3,1,2],"b":["b","a"],"e":[],"o":{"k":1},"p":{},"objs":[{"k":1,"v":"x"},{"k":null},{"v":"y"},{"k":"s"}],"big":9223372036854775807}`
+	atoms := []string{"n", "m", "q", "zero", "s", "u", "z", "missing", "t", "f", "a", "e", "o", "p", "big", "`1`", "'abc'", "a[0]", "o.k", "@", "objs[*].k", "objs[0]"}
+	bins := []string{"==", "!=", "<", "<=", ">", ">=", "&&", "||", "+", "-", "*", "/", "//", "%", "|"}
+	unaries := []string{"!(%s)", "-(%s)", "+(%s)", "not_null(%s, 'alt')", "type(%s)", "[%s]", "{r: %s}.r", "to_array(%s)", "(%s) && 'yes'", "(%s) || 'no'", "[n, s, z, a][?%s]", "objs[?%s]", "length(to_array(%s))", "let $v = %s in [$v, !$v]"}
+	i := 0
+	emit := func(e string) {
+		i++
+		if sample <= 1 || r.Intn(sample) == 0 {
+			c.add("skeleton", e, doc)
+		}
+	}
+	for _, x := range atoms {
+		for _, op := range bins {
+			for _, y := range atoms {
+				b := x + " " + op + " " + y
+				emit(b)
+				u := unaries[(i*7+len(x)+len(y))%len(unaries)]
+				emit(strings.ReplaceAll(u, "%s", b))
+				if sample <= 1 {
+					u2 := unaries[(i*13+3)%len(unaries)]
+					emit(strings.ReplaceAll(u2, "%s", b))
+				}
+			}
+		}
+	}
+	// every unary form over every comparison / boolean form of the element inside a filter
+	for _, u := range unaries[:3] {
+		for _, op := range bins[:8] {
+			for _, y := range atoms[:10] {
+				emit("objs[?" + strings.ReplaceAll(u, "%s", "k "+op+" $."+y) + "].v")
+				emit("[n, m, q, zero, s, z, t][?" + strings.ReplaceAll(u, "%s", "@ "+op+" $."+y) + "]")
+			}
+		}
+	}
+	// binary of binary
+	for k := 0; k < 4000/max(sample, 1); k++ {
+		x, y, z := r.Pick(atoms), r.Pick(atoms), r.Pick(atoms)
+		o1, o2 := r.Pick(bins), r.Pick(bins)
+		emit(x + " " + o1 + " " + y + " " + o2 + " " + z)
+		emit("(" + x + " " + o1 + " " + y + ") " + o2 + " " + z)
+		emit(x + " " + o1 + " (" + y + " " + o2 + " " + z + ")")
 	}
 }
